@@ -37,7 +37,7 @@ TEXT = {'text': 'Kernel-checked theorems. Text forms: parse_T (print_T x) = Ok x
          'both witnesses, AssetIssuance, OutPoint, Block, BlockHeader, ExtData, Params, confidential Value/Asset/Nonce, TxOutSecrets, LockTime, hash newtypes, '
          'midstate wrappers, Script, blinding factors and the Display-string types: de_T true (json_view (ser_T true x)) = Ok x and de_T false (cbor_view '
          '(ser_T false x)) = Ok x under exactly the invariants of the Rust type (and, by a bridge lemma, under the consensus codecs\' wf). Finding F17 (Height/Time derived '
-         'Deserialize skipped the threshold check) is repaired in the library (4dc51c6); the theorems now state that every LockTime Deserialize returns '
+         'Deserialize skipped the threshold check) is repaired in the library (6e5fde4); the theorems now state that every LockTime Deserialize returns '
          'satisfies the invariant and survives Display/FromStr, and that the invariant is exactly the class on which the text round trip holds. The derived '
          'PSET serde is explored by correspondence only and does not round-trip (findings F28-F30). Every run the model reproduces the crate\'s JSON text and CBOR bytes '
          'byte-for-byte and its accept/reject/value/error-class on thousands of near-miss strings.',
